@@ -19,9 +19,9 @@ use std::rc::Rc;
 
 type D = Rc<BDD<usize>>;
 
-pub const ROUTES: [&str; 15] = [
+pub const ROUTES: [&str; 18] = [
     "mk_choice", "dnf", "cnf", "shannon-ite", "xor-detour", "double-negation", "absorption", "demorgan", "quantifier-detour", "counting-detour",
-    "fixpoint-detour", "model-of-minterms", "retain-any+clean", "split-or-ab", "split-or-ba",
+    "fixpoint-detour", "model-of-minterms", "retain-any+clean", "split-or-ab", "split-or-ba", "cross-env-or", "cross-env-absorption", "cross-env-ite",
 ];
 
 fn lit(env: &BDDEnv<usize>, label: usize, pos: bool) -> D {
@@ -64,7 +64,7 @@ fn shannon(env: &BDDEnv<usize>, t: &Tt, labels: &[usize], k: usize) -> D {
 
 /// Build table `t` (over `labels`, ascending; variable i of the table = labels[i]) by `route`.
 /// `spare` is a label not in `labels` (for the quantifier detour); `g` an arbitrary helper diagram.
-pub fn build_route(env: &BDDEnv<usize>, route: &str, t: &Tt, labels: &[usize], spare: usize, g: &D) -> D {
+pub fn build_route(env: &BDDEnv<usize>, alt: &BDDEnv<usize>, route: &str, t: &Tt, labels: &[usize], spare: usize, g: &D) -> D {
     let n = labels.len() as u32;
     let vars: Vec<(usize, u32)> = labels.iter().enumerate().map(|(i, l)| (*l, i as u32)).collect();
     let ones: Vec<u64> = (0..t.size()).filter(|a| t.get(*a)).collect();
@@ -91,11 +91,11 @@ pub fn build_route(env: &BDDEnv<usize>, route: &str, t: &Tt, labels: &[usize], s
             env.xor(Rc::clone(g), env.xor(Rc::clone(g), f))
         }
         "double-negation" => {
-            let f = build_route(env, "dnf", t, labels, spare, g);
+            let f = build_route(env, alt, "dnf", t, labels, spare, g);
             env.not(env.not(f))
         }
         "absorption" => {
-            let f = build_route(env, "cnf", t, labels, spare, g);
+            let f = build_route(env, alt, "cnf", t, labels, spare, g);
             env.and(Rc::clone(&f), env.or(f, Rc::clone(g)))
         }
         "demorgan" => {
@@ -136,7 +136,7 @@ pub fn build_route(env: &BDDEnv<usize>, route: &str, t: &Tt, labels: &[usize], s
             }
         }
         "fixpoint-detour" => {
-            let f = build_route(env, "dnf", t, labels, spare, g);
+            let f = build_route(env, alt, "dnf", t, labels, spare, g);
             env.fp(env.mk_const(false), |r| env.or(r, Rc::clone(&f)))
         }
         "model-of-minterms" => {
@@ -161,6 +161,30 @@ pub fn build_route(env: &BDDEnv<usize>, route: &str, t: &Tt, labels: &[usize], s
             } else {
                 env.or(p2, p1)
             }
+        }
+        // operands obtained in ANOTHER environment handed to an operation of this one
+        "cross-env-or" => {
+            let f_alt = build_in_env(alt, t, &vars);
+            let g_alt = helper_g(alt, labels, spare, 1);
+            let p1 = alt.and(f_alt, Rc::clone(&g_alt));
+            let f = build_in_env(env, t, &vars);
+            let g_here = helper_g(env, labels, spare, 1);
+            let p2 = env.and(env.not(g_here), f);
+            env.or(p1, p2)
+        }
+        "cross-env-absorption" => {
+            let f_alt = build_route(alt, env, "dnf", t, labels, spare, g);
+            let f = build_in_env(env, t, &vars);
+            env.and(f_alt, env.or(f, Rc::clone(g)))
+        }
+        "cross-env-ite" => {
+            if n == 0 {
+                return env.mk_const(t.get(0));
+            }
+            // Shannon expansion on the first label with cofactors built in the other environment
+            let hi = build_in_env(alt, &t.cofactor(0, true), &vars);
+            let lo = build_in_env(alt, &t.cofactor(0, false), &vars);
+            env.ite(env.var(labels[0]), hi, lo)
         }
         _ => unreachable!("unknown route {}", route),
     }
@@ -221,12 +245,12 @@ fn check_function(
     let g2 = helper_g(other_env, labels, spare, salt);
     for (ri, route) in routes.iter().enumerate() {
         // alternate environments: the same function built in a fresh/other environment must compare equal too
-        let (e, gg, envname) = if (ri as u64 + salt) % 3 == 0 { (other_env, &g2, "other-env") } else { (env, &g, "main-env") };
+        let (e, ealt, gg, envname) = if (ri as u64 + salt) % 3 == 0 { (other_env, env, &g2, "other-env") } else { (env, other_env, &g, "main-env") };
         st.evals += 1;
         st.bump(&format!("route_{}", route));
         let case = || json!({"table": t.hex(), "labels": labels.iter().map(|x| x.to_string()).collect::<Vec<_>>(), "spare": spare.to_string(), "route": route, "salt": salt});
         util::budget(20_000_000, 10_000);
-        let r = match guarded(|| build_route(e, route, t, labels, spare, gg)) {
+        let r = match guarded(|| build_route(e, ealt, route, t, labels, spare, gg)) {
             Ok(r) => r,
             Err(c) => {
                 st.violate("c02.panic", format!("C02:{}:{}", route, c.signature()), format!("route {} did not return: {:?}", route, c), case());
@@ -401,20 +425,20 @@ pub fn run(ctx: &Ctx) -> (Stats, Spec) {
     // all 256 functions over 3 variables, both families
     let parts = util::par_jobs(2 * 8, |job| exhaustive_job(3, job / 8, job % 8, 8, 1));
     st.merge(crate::report::merge_all(parts));
-    st.exhaustive.push("all 256 functions over 3 variables x 15 construction routes x 2 label families (+ formula-text route)".into());
+    st.exhaustive.push("all 256 functions over 3 variables x 18 construction routes x 2 label families (+ formula-text route)".into());
     // functions over 4 variables: quick = every 16th (4096 per family), thorough = all 65 536
     let stride = ctx.tier.pick(2u64, 1u64);
     let parts = util::par_jobs(2 * 16, |job| exhaustive_job(4, job / 16, job % 16, 16, stride));
     st.merge(crate::report::merge_all(parts));
     if stride == 1 {
-        st.exhaustive.push("all 65 536 functions over 4 variables x 15 routes x 2 label families".into());
+        st.exhaustive.push("all 65 536 functions over 4 variables x 18 routes x 2 label families".into());
     }
     let iters = ctx.tier.pick(1_000u64, 40_000u64);
     let parts = util::par_jobs(16, |job| random_job(ctx, job, iters));
     st.merge(crate::report::merge_all(parts));
 
     let spec = Spec {
-        rule: "each Boolean function (all over 3 variables; every 2nd [quick] / all [thorough] over 4; random over 5-7 sparse labels incl. usize::MAX) is built by 15 independent routes through the public API (mk_choice, DNF, CNF, Shannon/ite, xor detour, double negation, absorption, De Morgan via nor/nand, quantifier detour, counting detour, fixed-point detour, model of minterms, retain(Any)+clean, operand-order split) alternating between two environments, plus the formula language; distinct = (table, route, family); non-trivial = non-constant table with >= 2 support variables.".into(),
+        rule: "each Boolean function (all over 3 variables; every 2nd [quick] / all [thorough] over 4; random over 5-7 sparse labels incl. usize::MAX) is built by 18 independent routes through the public API (operands from another environment handed to an operation [or, absorption, ite], mk_choice, DNF, CNF, Shannon/ite, xor detour, double negation, absorption, De Morgan via nor/nand, quantifier detour, counting detour, fixed-point detour, model of minterms, retain(Any)+clean, operand-order split) alternating between two environments, plus the formula language; distinct = (table, route, family); non-trivial = non-constant table with >= 2 support variables.".into(),
         assumptions: vec![
             "'hash equal' is demanded only in the direction same function => same hash; collisions between different functions are counted, not reported".into(),
             "a change replacing structural equality by hash equality would need a constructed 64-bit collision to be observed (out of reach)".into(),
